@@ -767,8 +767,26 @@ def register(reg):
       "Python dict/set iteration order cannot influence it; with C13's sorted_perm_invariant (lookup results do not depend "
       "on set iteration order). Partial: sites outside the models (useractions cascades iterating sets of Records) are "
       "only searched. Search (the property itself): identical histories replayed in separate processes under different "
-      "PYTHONHASHSEED values; replies (stored, undo, direct, retValues) and all tables must be identical bundle by bundle.",
-      "documents without time/randomness-dependent formulas; error replies compared by exception class.",
+      "PYTHONHASHSEED values; replies (stored, undo, direct, retValues) and all tables must be identical bundle by bundle. "
+      "Judged by this direct oracle ONLY (the Lean model starts below the user-action layer and does not contain its "
+      "per-item loops): multi-item user actions - ONE UpdateRecord / BulkUpdateRecord / AddRecord / BulkAddRecord / "
+      "AddOrUpdateRecord entering data into two or more still-empty columns of a table (each is converted: ModifyColumn + "
+      "_grist_Tables_column updates), ONE BulkRemoveRecord / BulkUpdateRecord on _grist_Tables_column naming several "
+      "columns (removed, renamed by colId or label, retyped, converted, formula changed), ONE action on _grist_Tables naming "
+      "several tables (removed, renamed, onDemand with empty columns), ONE BulkRemoveRecord naming several widgets / fields / "
+      "views / pages; generated in dedicated 'multi' histories and six fixed witness histories on every run, most followed "
+      "by an undo pseudo-bundle (each process applies its own undo list); counters multi:<situation> count only bundles "
+      "whose stored actions really contain two or more per-item doc actions. Recorded findings (order only, tables "
+      "identical; attributed only when the difference is FULLY explained: same actions as multisets and identical "
+      "sequences once the named actions are taken out; the comparison of that history stops there because the schema's "
+      "column / table order may differ afterwards): (1) BulkAddOrUpdateRecord builds its value dicts from a set of column "
+      "ids, so the order in which it converts several empty columns depends on the hash seed - only when the bundle's sole "
+      "multi-item situation is that upsert; (2) doRemoveColumns rewrites sortColRefs of several widgets in one "
+      "BulkUpdateRecord whose row order is that of a set of Records (address-based hash; differs even under one hash "
+      "seed). The renaming of a group-by source column of several summary tables (set-of-Records order until fix dbe5f92) "
+      "is a fixed witness.",
+      "documents without time/randomness-dependent formulas; error replies compared by exception class; multi-item user "
+      "actions are covered by the cross-process search only, not by a theorem.",
       "Lean 4 theorems (order-independence of the flush) + cross-process differential under PYTHONHASHSEED")
 
   reg("C10", "proof",
